@@ -22,6 +22,9 @@ pub enum Op {
     CRemove { k: u8, typed: bool },
     CClear,
     CIsEmpty { via_mut: bool },
+    /// Environment fault, not a session operation: the store record of the id the request came
+    /// with vanishes now (TTL expiry / a concurrent delete), behind the session's back.
+    Vanish,
 }
 
 impl Op {
@@ -48,6 +51,7 @@ impl Op {
             Op::CRemove { .. } => "client.remove_raw",
             Op::CClear => "client.clear",
             Op::CIsEmpty { .. } => "client.is_empty",
+            Op::Vanish => "env.record_vanishes",
         }
     }
     /// Short name without the API flavour, used in signatures.
@@ -68,6 +72,7 @@ impl Op {
             Op::CRemove { .. } => "client_remove",
             Op::CClear => "client_clear",
             Op::CIsEmpty { .. } => "client_is_empty",
+            Op::Vanish => "record_vanishes",
         }
     }
     pub fn show(&self) -> String {
@@ -98,6 +103,7 @@ impl Op {
             Op::CRemove { k, typed } => json!(["crem", k, typed]),
             Op::CClear => json!(["cclear"]),
             Op::CIsEmpty { via_mut } => json!(["cempty", via_mut]),
+            Op::Vanish => json!(["vanish"]),
         }
     }
     pub fn from_json(v: &Value) -> Option<Op> {
@@ -121,6 +127,7 @@ impl Op {
             "crem" => Op::CRemove { k: k()?, typed: b(2) },
             "cclear" => Op::CClear,
             "cempty" => Op::CIsEmpty { via_mut: b(1) },
+            "vanish" => Op::Vanish,
             _ => return None,
         })
     }
@@ -281,7 +288,7 @@ fn gen_op(rng: &mut Rng, profile: u8) -> Op {
 }
 
 /// 1-6 requests x 0-8 operations, plus a final observing request that reads everything back.
-pub fn gen_history(rng: &mut Rng, max_reqs: u64, client_ops: bool) -> History {
+pub fn gen_history(rng: &mut Rng, max_reqs: u64, client_ops: bool, faults: bool) -> History {
     let n = 1 + rng.below(max_reqs);
     let profile = rng.below(4) as u8; // 0,3 = balanced
     let mut reqs = Vec::new();
@@ -315,6 +322,44 @@ pub fn gen_history(rng: &mut Rng, max_reqs: u64, client_ops: bool) -> History {
             v
         };
         reqs.push(Req { src, long_ttl: rng.chance(1, 3), extra_cookie: rng.chance(1, 4), ops });
+    }
+    if faults && n >= 2 && rng.chance(1, 5) {
+        // Environment fault: in one request (not the first) the record of the current id vanishes
+        // *after* the server state has been loaded, and the request also cycles the id - the one
+        // situation in which the outcome is still pinned (the state must move to the new id).
+        if !reqs[0].ops.iter().any(|o| matches!(o, Op::SInsert { .. })) {
+            let k = rng.below(3) as u8;
+            reqs[0].ops.push(Op::SInsert { k, typed: rng.chance(1, 2) });
+        }
+        reqs[0].ops.retain(|o| !matches!(o, Op::Delete | Op::Invalidate | Op::SClear));
+        let i = 1 + rng.below(n - 1) as usize;
+        for r in reqs.iter_mut().take(i) {
+            // ... and make it likely that the session is alive and has a record when the fault hits
+            r.ops.retain(|o| !matches!(o, Op::Delete | Op::Invalidate | Op::Sync));
+        }
+        for r in reqs.iter_mut().take(i).skip(1) {
+            r.src = Src::Jar;
+        }
+        let r = &mut reqs[i];
+        r.src = Src::Jar;
+        // keep the request judgeable: no manual sync / delete / invalidate next to the fault
+        r.ops.retain(|o| !matches!(o, Op::Sync | Op::Delete | Op::Invalidate | Op::CycleId));
+        r.ops.truncate(6);
+        let k = rng.below(3) as u8;
+        let typed = rng.chance(1, 2);
+        let loader = match rng.below(4) {
+            0 => Op::ForceLoad,
+            1 => Op::SGet { k, typed },
+            2 => Op::SIsEmpty,
+            _ => Op::SInsert { k, typed },
+        };
+        let p1 = rng.below(r.ops.len() as u64 + 1) as usize;
+        r.ops.insert(p1, loader);
+        let p2 = p1 + 1 + rng.below((r.ops.len() - p1) as u64) as usize;
+        r.ops.insert(p2, Op::Vanish);
+        // cycle_id() anywhere after the load: before or after the record vanishes
+        let p3 = p1 + 1 + rng.below((r.ops.len() - p1) as u64) as usize;
+        r.ops.insert(p3, Op::CycleId);
     }
     // After the workload: sometimes replay the previous cookie (is the old id really dead?) ...
     if rng.chance(1, 3) {
